@@ -31,6 +31,7 @@ RULES = {
     "C02-D3": "previous-header token: empty per message; assigned from the composed header on every path from the composition to the next unit",
     "C02-D4": "not-found edge: exactly one -113 with the unit text, result FALSE, no handler",
     "C02-D8": "the -113 text starts at the header token (as lexed or as composed), never at the unit start: the bytes between unit start and header are overwritten by the path composition",
+    "C02-D9": "identity queries: SCPI_IsCmd matches the given text in its full length against the matched entry's pattern; SCPI_CommandNumbers matches (cmd_raw.data, cmd_raw.length) and passes array, capacity and default through",
     "C02-D5": "handler-visible identity (param_list.cmd, cmd_raw.data/length) stored from the matched entry / composed header before the call-back",
     "C02-D7": "the path is prepended with an overlap-safe copy: source (previous header) and destination (in front of the current header) lie in the same buffer, destination above source",
     "C02-D6": "composeCompoundCommand: deciding characters {'*', ':'} / {'*'} / ':'; pointer, length and copy use the same amount",
@@ -311,6 +312,78 @@ def rule_d2_d5(ck, prog, S):
     ck.analysed(proc, parse)
 
 
+def rule_d9(ck, prog):
+    """What the identity queries hand to the matcher (by evaluation with named unknowns, sa/interp.py): SCPI_IsCmd tests the
+    TEXT IT IS GIVEN, in its full length, against the pattern of the matched entry; SCPI_CommandNumbers matches the effective
+    header (cmd_raw.data, cmd_raw.length) against that pattern and passes the caller's array, capacity and default."""
+    from sa import interp as I
+
+    def ctx_with(entry_pattern, raw, rawlen):
+        ctx = I.zero_object(prog, {"tk": "record", "ct": "struct _scpi_t"})
+        pl = ctx.get("param_list")
+        if not isinstance(pl, dict) or "cmd" not in pl or "cmd_raw" not in pl:
+            raise I.Stuck("unexpected parameter list layout")
+        pl["cmd"] = I.Ptr([{"pattern": entry_pattern, "callback": 0, "tag": 0}], 0)
+        pl["cmd_raw"] = {"data": raw, "length": rawlen, "position": 0}
+        return ctx
+    f = prog.fn("SCPI_IsCmd")
+    if f is not None:
+        st = K.site(f, "probe-matched-in-full", 0)
+        pat, probe = I.mkstring("AB"), I.mkstring("ABCDEFG")
+        try:
+            ctx = ctx_with(pat, I.mkstring("X"), 1)
+            outs, m = I.explore(prog, f.name, [I.Ptr([ctx], 0), probe], follow=lambda n_: prog.fn(n_) is not None,
+                                effects={"matchCommand": "fresh"})
+            bad = None
+            for _r, fr in outs:
+                mc = [a for nm, a in fr.plog if nm == "matchCommand"]
+                if len(mc) != 1:
+                    bad = "%d matcher calls" % len(mc)
+                    continue
+                a = mc[0]
+                if not (isinstance(a[0], I.Ptr) and a[0].cont is pat.cont):
+                    bad = "the pattern handed to the matcher is not the matched entry's pattern"
+                elif not (isinstance(a[1], I.Ptr) and a[1].cont is probe.cont and a[1].key == 0):
+                    bad = "the text handed to the matcher is not the text given to SCPI_IsCmd"
+                elif a[2] != 7:
+                    bad = "a 7-character text is matched with length %r: a header longer than that is cut and SCPI_IsCmd answers for another text" % (a[2],)
+            if bad:
+                ck.violated("C02-D9", st, K.loc(f), bad)
+            else:
+                ck.holds("C02-D9", st, K.loc(f), "matchCommand(entry pattern, given text, strlen(given text))")
+        except I.Stuck as e:
+            ck.undecided("C02-D9", st, K.loc(f), "SCPI_IsCmd cannot be evaluated: %s" % e)
+        ck.analysed(f)
+    g = prog.fn("SCPI_CommandNumbers")
+    if g is not None:
+        st = K.site(g, "effective-header-matched", 0)
+        pat, raw = I.mkstring("AB#"), I.mkstring("AB12")
+        nums = [0, 0, 0]
+        try:
+            ctx = ctx_with(pat, raw, I.Sym("rawlen", 64))
+            outs, m = I.explore(prog, g.name, [I.Ptr([ctx], 0), I.Ptr(nums, 0), I.Sym("cap", 64), I.Sym("dflt", 32)],
+                                follow=lambda n_: prog.fn(n_) is not None, effects={"matchCommand": "fresh"})
+            bad = None
+            for _r, fr in outs:
+                mc = [a for nm, a in fr.plog if nm == "matchCommand"]
+                if len(mc) != 1 or len(mc[0]) < 6:
+                    bad = "%d matcher calls" % len(mc)
+                    continue
+                a = mc[0]
+                okk = isinstance(a[0], I.Ptr) and a[0].cont is pat.cont and isinstance(a[1], I.Ptr) and a[1].cont is raw.cont and a[1].key == 0 and \
+                    isinstance(a[2], I.Sym) and a[2].name == "rawlen" and a[2].intact() and isinstance(a[3], I.Ptr) and a[3].cont is nums and \
+                    isinstance(a[4], I.Sym) and a[4].name == "cap" and a[4].intact() and isinstance(a[5], I.Sym) and a[5].name == "dflt" and a[5].intact()
+                if not okk:
+                    bad = "the matcher is not called with (entry pattern, cmd_raw.data, cmd_raw.length, numbers, capacity, default): %r" % (a[:6],)
+            if bad:
+                ck.violated("C02-D9", st, K.loc(g), bad)
+            else:
+                ck.holds("C02-D9", st, K.loc(g), "matchCommand(entry pattern, cmd_raw.data, cmd_raw.length, numbers, len, default)")
+        except I.Stuck as e:
+            ck.undecided("C02-D9", st, K.loc(g), "SCPI_CommandNumbers cannot be evaluated: %s" % e)
+        ck.analysed(g)
+
+
 def rule_d3_d4(ck, prog, S):
     got = K.need(ck, prog, "C02-D3", "SCPI_Parse")
     if not got:
@@ -575,6 +648,7 @@ def run(ck, fb, tier):
         rule_d1(ck, prog, S)
         rule_d2_d5(ck, prog, S)
         rule_d3_d4(ck, prog, S)
+        rule_d9(ck, prog)
         rule_d6(ck, prog, S)
         K.narrowing_rule(ck, prog, "C02-N", lambda f_: f_.name in ("SCPI_Parse", "SCPI_Input", "processCommand", "findCommandHeader", "SCPI_CmdTag", "SCPI_IsCmd", "SCPI_CommandNumbers", "composeCompoundCommand", "matchCommand", "matchPattern"))
     ck.assume("matchCommand decides the pattern language (C03, not claimed)")
